@@ -7,7 +7,7 @@ cd "$VERIF_ROOT/sim" || exit 2
 mkdir -p "$VERIF_ROOT/bin"
 (
   flock 9
-  go run ./cmd/genwiring /repo/cmd/serve/serve.go k/wiring_gen.go.tmp || exit 2
+  go run ./cmd/genwiring "${VERIF_REPO:-/repo}/cmd/serve/serve.go" k/wiring_gen.go.tmp || exit 2
   if ! cmp -s k/wiring_gen.go.tmp k/wiring_gen.go; then mv k/wiring_gen.go.tmp k/wiring_gen.go; else rm -f k/wiring_gen.go.tmp; fi
   go build -tags verif -o "$VERIF_ROOT/bin/vcheck.new" ./cmd/vcheck || exit 2
   mv "$VERIF_ROOT/bin/vcheck.new" "$VERIF_ROOT/bin/vcheck"
